@@ -33,6 +33,7 @@ import (
 
 	"github.com/hashicorp/consul/agent/consul/state"
 	"github.com/hashicorp/consul/agent/structs"
+	"github.com/hashicorp/consul/api"
 	"github.com/hashicorp/consul/internal/verifkit"
 	vs "github.com/hashicorp/consul/internal/verifstate"
 	memdb "github.com/hashicorp/go-memdb"
@@ -240,6 +241,91 @@ func verifC06LinkRemovalExplains(q *verifC06Query, removed []string) bool {
 	return false
 }
 
+// Root causes recognised from the failing observation (each one triaged against the real code, see
+// known_findings.d/C06.json). Anything else keeps the generic signature family/failure/write.
+const (
+	verifC06KeyCheckMoved   = "C06/check-reassigned-old-service-not-notified"
+	verifC06KeyPeerDump     = "C06/peer-service-dump-reads-local-index"
+	verifC06KeyRootTree     = "C06/kv-delete-whole-tree-old-tombstone-shadows-index"
+	verifC06KeyCatalogConn  = "C06/catalog-connect-index-ignores-proxy-services"
+)
+
+// verifC06MovedChecks lists checks (peer|node|id) whose ServiceID differs between the two snapshots.
+func verifC06MovedChecks(b, a *verifC06Snap) [][3]string {
+	var out [][3]string
+	for k, v := range b.checks {
+		av, ok := a.checks[k]
+		if !ok {
+			continue
+		}
+		bs, as := v[:strings.Index(v, "\x00")], av[:strings.Index(av, "\x00")]
+		if bs != as {
+			p := strings.SplitN(k, "|", 3)
+			out = append(out, [3]string{p[1], p[2], bs})
+		}
+	}
+	sort.Slice(out, func(i, j int) bool { return out[i][0]+out[i][1] < out[j][0]+out[j][1] })
+	return out
+}
+
+func verifC06RootCause(q *verifC06Query, fk string, op *vs.Op, snapB, snapA *verifC06Snap, removed []string, b, a verifC06Obs) string {
+	indexFail := fk == "changed-index-regress" || fk == "changed-index-not-advanced" || fk == "unchanged-index-regress"
+	// (1) a gateway-services row the lookup depended on went away and took its index contribution with it
+	if indexFail && verifC06LinkRemovalExplains(q, removed) {
+		return verifC06KeyGatewayLink
+	}
+	// (2) a check registered again under another ServiceID (or moved between node level and service level): only
+	// the NEW service's index is bumped (ensureCheckTxn); lookups that showed the check under the OLD service
+	// change without notice
+	if fk == "changed-index-not-advanced" || fk == "changed-not-woken" {
+		for _, mv := range verifC06MovedChecks(snapB, snapA) {
+			if strings.Contains(b.Res, `"CheckID":"`+mv[1]+`"`) && strings.Contains(strings.ToLower(b.Res), `"node":"`+mv[0]+`"`) &&
+				strings.Contains(b.Res, `"ServiceID":"`+mv[2]+`"`) {
+				return verifC06KeyCheckMoved
+			}
+		}
+	}
+	// (3) serviceDumpAllTxn takes index and watch channels from the LOCAL catalog tables also when it dumps a peer
+	if q.Fam == "ServiceDumpPeer" && strings.Contains(q.Name, "useKind=false") && fk != "unchanged-index-regress" {
+		return verifC06KeyPeerDump
+	}
+	// (4) delete-tree of the whole keyspace writes no tombstone; a listing under a prefix that still has an OLDER
+	// tombstone reports that tombstone's index
+	if q.KV && q.Fam != "KVSGet" && indexFail && len(snapB.kv) > 0 && len(snapA.kv) == 0 && verifC06DeletesWholeTree(op) {
+		return verifC06KeyRootTree
+	}
+	// (5) Catalog connect lookup reports the index of the TARGET service name only, although its result consists of
+	// proxies / gateways registered under other names
+	if q.Fam == "ConnectServiceNodes" && indexFail && fk != "unchanged-index-regress" {
+		other := false
+		for _, r := range []string{b.Res, a.Res} {
+			for _, part := range strings.Split(r, `"ServiceName":"`)[1:] {
+				if !strings.HasPrefix(part, q.Svc+`"`) {
+					other = true
+				}
+			}
+		}
+		if other {
+			return verifC06KeyCatalogConn
+		}
+	}
+	return ""
+}
+
+func verifC06DeletesWholeTree(op *vs.Op) bool {
+	switch op.Kind {
+	case vs.KVDeleteTree:
+		return op.P.KV.Key == ""
+	case vs.Txn:
+		for _, t := range op.P.Txn {
+			if t.KV != nil && t.KV.Verb == api.KVDeleteTree && t.KV.DirEnt.Key == "" {
+				return true
+			}
+		}
+	}
+	return false
+}
+
 func (m *verifC06Machine) step(op *vs.Op) {
 	f, c := m.f, m.c
 	before, snapB := m.cur, m.snap
@@ -298,14 +384,25 @@ func (m *verifC06Machine) step(op *vs.Op) {
 		}
 		for _, fk := range fails {
 			key := "C06/" + q.Fam + "/" + fk + "/" + wk
-			if fk != "changed-not-woken" && verifC06LinkRemovalExplains(q, removed) {
-				key = verifC06KeyGatewayLink
-				c.Label("known:gateway-link-removed")
+			if rc := verifC06RootCause(q, fk, op, snapB, snapA, removed, b, a); rc != "" {
+				key = rc
+				c.Label("known:" + strings.TrimPrefix(rc, "C06/"))
 			}
 			detail := fmt.Sprintf("%s around %q (step %d, raft index %d, result %s): reported index %d -> %d, result changed=%v, watch fired=%v, removed gateway links=%v",
 				q.Name, op.Desc, len(m.ops), op.Idx, res, i0, i1, changed, fired, removed)
 			if changed {
 				detail += "\n   " + verifC06Diff(b.Res, a.Res)
+			}
+			if os.Getenv("VERIF_C06_SURVEY") != "" { // development aid: count every signature instead of stopping at the first
+				c.Label("survey:" + key)
+				if verifC06SurveySeen == nil {
+					verifC06SurveySeen = map[string]bool{}
+				}
+				if !verifC06SurveySeen[key] {
+					verifC06SurveySeen[key] = true
+					fmt.Printf("SURVEY %s\n%s\nHISTORY:\n%s\n", key, detail, verifC06History(m.ops))
+				}
+				continue
 			}
 			if !c.Violation(f, key, "%s", detail) {
 				return
@@ -431,6 +528,16 @@ func (m *verifC06Machine) shapes(op *vs.Op, b, a *verifC06Snap, nChanged int, re
 	}
 }
 
+var verifC06SurveySeen map[string]bool
+
+func verifC06History(ops []*vs.Op) string {
+	var b strings.Builder
+	for _, o := range ops {
+		fmt.Fprintf(&b, "   %d %s\n", o.Idx, o.Desc)
+	}
+	return b.String()
+}
+
 func verifC06Run(f verifkit.F, c *verifkit.Case, next func(m *verifC06Machine, i int) *vs.Op) {
 	m := verifC06New(f, c)
 	defer c.GuardPanic(f, "C06/panic")
@@ -515,7 +622,7 @@ func TestVerifC06Replay(t *testing.T) {
 			c := rec.NewCase()
 			c.Label("witness:" + name)
 			verifC06Run(t, c, feed(ws[name]))
-			if !c.HasLabel("known:gateway-link-removed") && rec.IsKnown(verifC06KeyGatewayLink) {
+			if !c.HasLabel("known:gateway-link-removed-index-regress") && rec.IsKnown(verifC06KeyGatewayLink) {
 				t.Logf("witness %s no longer reproduces %s", name, verifC06KeyGatewayLink)
 				c.Label("witness-no-longer-reproduces")
 			}
